@@ -14,6 +14,7 @@ mod gen;
 mod hexf;
 mod minimise;
 mod problems;
+mod protocol;
 mod props;
 mod rng;
 mod run;
